@@ -813,6 +813,9 @@ def render_template(template_source, template_vars=None, template_internal_vars=
 
 def register_all_params_in_track(assembled_source, complete_track_params=None, loader=None):
     j2env = jinja2.Environment()
+    # Jinja's own globals (range, dict, namespace, ...) are also valid names of track parameters; names known to the environment
+    # are not reported by find_undeclared_variables
+    j2env.globals.clear()
 
     # we don't need the following j2 filters/macros but we define them anyway to prevent parsing failures
     internal_template_vars = default_internal_template_vars()
